@@ -38,6 +38,13 @@ Hardening pass (blind-spot classes of HARDENING.md)
   C configuration       the whole law suite (reduced) under config.precision = 32 (complex64 elements; complex128 inputs too),
                         then under precision 64 at full tolerance (keys carry /precision=32, /after-precision-32); complex64 and
                         float32 inputs under precision 64
+  E argument forms      (hardening pass 2; everything except the propagation adapter) angles / retardances / alpha / charge / rotate
+                        as python int, numpy float64 / int64 / float32 scalars and 0-d arrays, judged against closed forms written
+                        out here; keyword vs positional, omitted vs explicit defaults after calls with other values; shape= as list /
+                        ndarray / numpy ints / range / empty; vortex theta grids float32 / int64 / F-ordered / read-only / strided;
+                        Jones arrays complex64 / float64 / float32 / int64 / int32 / uint8 / bool through jones_to_mueller (both
+                        broadcast forms, broadcast flag forms), broadcast_kron and pauli_coefficients, leading shapes incl. (2,),
+                        (2,2), (2,2,2); every constructor judged after the caller edited, in place, matrices earlier calls returned
   D regimes             long call histories: > 2600 (thorough 30000) Jones-to-Mueller conversions and constructor calls under
                         precision 64 and > 700 (10000) under precision 32 in one process, the last calls judged
 """
@@ -62,7 +69,11 @@ ASSUMPTIONS = ['numpy matmul / kron / einsum are the reference linear algebra',
                'vortex retarder; array theta for the plate constructors and array alpha / array vortex retardance raise and are '
                'outside the workload',
                'the sign convention of Stokes S3 is not fixed by the statement: the Mueller reference accepts both',
-               'theta grids handed to vector_vortex_retarder are floating-point arrays',
+               'theta grids handed to vector_vortex_retarder are floating-point arrays (the argument-form workload adds integer-valued '
+               'int64 grids, which the current tree accepts)',
+               'argument forms of the constructors / Mueller / Pauli / Kronecker routines (_run_forms): a form is demanded only when the '
+               'current tree accepts it as the same input (table above _run_forms); closed forms R(-th) diag(1, x) R(th) and Mawet eq. 7 '
+               'are written out in this module; float32 scalars / grids / complex64 Jones arrays are single-precision data (1e-3)',
                'Jones *vector* helpers (linear_pol_vector is used for Malus only; circular_pol_vector) are not part of the property',
                'the routines are deterministic functions of the values of their arguments; an array a routine returned belongs to '
                'the caller (editing it must not change later results)',
@@ -78,7 +89,8 @@ REQUIRED = ['jones_rotation_matrix.proper-rotation', 'linear_retarder.unitary', 
             'pauli.reconstruct', 'adapter.componentwise', 'add_jones_propagation.eq-direct', 'apply_polarization_optic.elementwise',
             'add_jones_propagation.later-step', 'repeat.cases', 'repeat.result-owned-by-caller', 'repeat.result-survives-later-call', 'repeat.same-args',
             'repeat.argument-forms', 'precision32.suite', 'precision32-then-64.suite', 'long-history.cases', 'long-history.mueller',
-            'long-history.elements']
+            'long-history.elements', 'form.closed-form', 'form.scalar-arguments', 'form.call-syntax', 'form.shape', 'form.jones-dtypes',
+            'form.returned-matrix-edited', 'adapter.argument-forms', 'add_jones_propagation.argument-forms']
 
 CTX = None
 TOL = 1e-12
@@ -299,6 +311,8 @@ def run(ctx):
         _run(ctx)
         _run_repeat(ctx)
         _run_long_history(ctx)
+        _run_forms(ctx)
+        _run_adapter_forms(ctx)
         _run_monkeypatch(ctx, saved)
     finally:
         for k, v in saved.items():
@@ -870,6 +884,438 @@ def _run_long_history(ctx):
                             dict(desc, call=i))
 
 
+# ---- argument forms of the element constructors and of the Mueller / Pauli / Kronecker routines (hardening pass 2, class E) ------
+# Accepted forms established by running the current tree (/repo @ faa8443) with every candidate: angles / retardances / alpha /
+# charge / rotate as python int (integral values) and float, numpy float64 / int64 scalars, 0-d arrays, and float32 scalars / 0-d
+# arrays (single-precision data: complex64 threshold); shape= as tuple / list / int ndarray / tuple of numpy ints / range, () and [] like
+# None; Jones arrays as complex128 / complex64 / float64 / float32 / int64 / int32 / uint8 (and bool for jones_to_mueller and
+# broadcast_kron; pauli_coefficients raises for bool and wraps around for unsigned integers: out of domain); broadcast= as True / False / 1 / 0 / numpy bool.  Python bool
+# angles (numpy evaluates cos(True) in half precision), lists for Jones arrays (no .shape), a python float or list for the vortex theta
+# (no .shape) raise or are something else today: out of domain.  Jones *vectors* are not part of the property (only Malus uses them).
+SCALAR_FORMS = ['python-int', 'numpy-float64', 'numpy-int64', '0d-float64', 'numpy-float32', '0d-float32']
+SHAPE_FORMS = ['list', 'ndarray', 'tuple-of-numpy-ints', 'range']
+JONES_DTYPES = ['complex64', 'float64', 'float32', 'int64', 'int32', 'uint8', 'bool']
+FORM_LEADS = [(), (1,), (2,), (3,), (2, 2), (2, 3), (2, 2, 2), (1, 2)]
+
+
+def _scalar_form(v, form):
+    if form == 'python-int':
+        return int(v)
+    if form == 'numpy-float64':
+        return np.float64(v)
+    if form == 'numpy-int64':
+        return np.int64(int(v))
+    if form == '0d-float64':
+        return np.array(float(v))
+    if form == 'numpy-float32':
+        return np.float32(v)
+    if form == '0d-float32':
+        return np.array(v, dtype=np.float32)
+    raise ValueError(form)
+
+
+def _shape_form(shp, form):
+    if form == 'list':
+        return list(shp)
+    if form == 'ndarray':
+        return np.array(shp, dtype=np.int64)
+    if form == 'tuple-of-numpy-ints':
+        return tuple([np.int64, np.int32, np.intp][i % 3](s) for i, s in enumerate(shp))
+    if form == 'range':
+        return range(shp[0], shp[0] + len(shp)) if len(shp) and list(shp) == list(range(shp[0], shp[0] + len(shp))) else None
+    raise ValueError(form)
+
+
+def ref_retarder(d, th):
+    return ref_rot(-th) @ np.array([[1, 0], [0, np.exp(1j * d)]]) @ ref_rot(th)
+
+
+def ref_diattenuator(a, th):
+    return ref_rot(-th) @ np.array([[1, 0], [0, a]], dtype=complex) @ ref_rot(th)
+
+
+def _run_forms(ctx):
+    """Class E for everything except the propagation adapter: the same mathematical argument in every accepted form gives the
+    element / Mueller matrix / coefficients of the canonical form, and an independent closed form."""
+    from prysm.x import polarization as pol
+    rng = ctx.rng('c20-forms')
+    n = ctx.share(ctx.pick(160, 9000))
+    for it in range(n):
+        sub = ctx.subseed(rng)
+        g = np.random.default_rng(sub)
+        integral = it % 3 == 0
+        if integral:
+            th, d, rot = float(g.integers(-6, 7)), float(g.integers(-6, 7)), float(g.integers(-3, 4))
+            alpha = float(g.integers(0, 2))
+            charge = float(g.integers(-3, 7))
+        else:
+            th, d, rot = angle(g), angle(g), angle(g)
+            alpha = float(g.uniform(0, 1))
+            charge = float([2, 1, -1, 3, 0.5, 4, -2.5][it % 7])
+        lead = FORM_LEADS[it % len(FORM_LEADS)]
+        shp = lead if lead != () else None
+        desc = {'wl': 'argument-forms', 'theta': th, 'ret': d, 'rotate': rot, 'alpha': alpha, 'charge': charge, 'lead': list(lead),
+                'subseed': sub, 'class': f'forms:{"integral" if integral else "generic"}:lead{len(lead)}d'}
+        ctx.case(desc)
+        forms = [f for f in SCALAR_FORMS if integral or 'int' not in f]
+        theta_grid = g.uniform(-math.pi, math.pi, lead if lead != () else (3,))
+        with ctx.guard('C20/forms/constructors', desc):
+            # canonical (python float) forms, judged against the closed forms first
+            canon = {
+                'jones_rotation_matrix': pol.jones_rotation_matrix(th),
+                'linear_retarder': pol.linear_retarder(d, th),
+                'half_wave_plate': pol.half_wave_plate(th),
+                'quarter_wave_plate': pol.quarter_wave_plate(th),
+                'linear_polarizer': pol.linear_polarizer(th),
+                'linear_diattenuator': pol.linear_diattenuator(alpha, th),
+                'vector_vortex_retarder': pol.vector_vortex_retarder(charge, theta_grid.copy(), d, rot),
+            }
+            closed = {
+                'jones_rotation_matrix': ref_rot(th), 'linear_retarder': ref_retarder(d, th), 'half_wave_plate': ref_retarder(math.pi, th),
+                'quarter_wave_plate': ref_retarder(math.pi / 2, th), 'linear_polarizer': ref_diattenuator(0.0, th),
+                'linear_diattenuator': ref_diattenuator(alpha, th),
+            }
+            for nm, want in closed.items():
+                law(ctx, 'form.closed-form', canon[nm], want, f'C20/{nm}/ne-closed-form', f'{nm} differs from R(-th) diag(1, x) R(th) written out', desc)
+            for f in forms:
+                tl = TOL32 if 'float32' in f else None
+                T, D, A_, C_, Ro = _scalar_form(th, f), _scalar_form(d, f), _scalar_form(alpha, f), _scalar_form(charge, f), _scalar_form(rot, f)
+                # float32 forms stand for the float32-rounded value
+                thv, dv, av, cv, rv = (float(np.asarray(x)) for x in (T, D, A_, C_, Ro))
+                calls = [
+                    ('jones_rotation_matrix', 'theta', lambda: pol.jones_rotation_matrix(T), ref_rot(thv)),
+                    ('linear_retarder', 'theta', lambda: pol.linear_retarder(d, T), ref_retarder(d, thv)),
+                    ('linear_retarder', 'retardance', lambda: pol.linear_retarder(D, th), ref_retarder(dv, th)),
+                    ('half_wave_plate', 'theta', lambda: pol.half_wave_plate(T), ref_retarder(math.pi, thv)),
+                    ('quarter_wave_plate', 'theta', lambda: pol.quarter_wave_plate(T), ref_retarder(math.pi / 2, thv)),
+                    ('linear_polarizer', 'theta', lambda: pol.linear_polarizer(T), ref_diattenuator(0.0, thv)),
+                    ('linear_diattenuator', 'theta', lambda: pol.linear_diattenuator(alpha, T), ref_diattenuator(alpha, thv)),
+                    ('linear_diattenuator', 'alpha', lambda: pol.linear_diattenuator(A_, th), ref_diattenuator(av, th)),
+                    ('vector_vortex_retarder', 'retardance', lambda: pol.vector_vortex_retarder(charge, theta_grid.copy(), D, rot),
+                     ref_vortex(charge, theta_grid, dv, rot)),
+                    ('vector_vortex_retarder', 'rotate', lambda: pol.vector_vortex_retarder(charge, theta_grid.copy(), d, Ro),
+                     ref_vortex(charge, theta_grid, d, rv)),
+                    ('vector_vortex_retarder', 'charge', lambda: pol.vector_vortex_retarder(C_, theta_grid.copy(), d, rot),
+                     ref_vortex(cv, theta_grid, d, rot)),
+                ]
+                for nm, arg, call, want in calls:
+                    if nm == 'vector_vortex_retarder' and abs(math.cos(dv if arg == 'retardance' else d)) > 2 and False:
+                        continue
+                    with ctx.guard(f'C20/{nm}/form:{arg}={f}', dict(desc, form=f)):
+                        law(ctx, 'form.scalar-arguments', call(), want, f'C20/{nm}/form:{arg}={f}',
+                            f'{nm} with {arg} given as {f} differs from the closed form for the same value', dict(desc, form=f), tol=tl)
+            # ---- keyword vs positional, omitted vs explicit default (also right after calls with other values)
+            pol.linear_retarder(d, th + 0.4)
+            pol.jones_rotation_matrix(0.9)
+            pairs = [
+                ('linear_retarder', 'theta=omitted', pol.linear_retarder(d), ref_retarder(d, 0.0)),
+                ('linear_retarder', 'call=keywords', pol.linear_retarder(retardance=d, theta=th, shape=None), ref_retarder(d, th)),
+                ('linear_diattenuator', 'theta=omitted', pol.linear_diattenuator(alpha), ref_diattenuator(alpha, 0.0)),
+                ('linear_diattenuator', 'call=keywords', pol.linear_diattenuator(alpha=alpha, theta=th, shape=None), ref_diattenuator(alpha, th)),
+                ('half_wave_plate', 'theta=omitted', pol.half_wave_plate(), ref_retarder(math.pi, 0.0)),
+                ('half_wave_plate', 'call=keywords', pol.half_wave_plate(theta=th, shape=None), ref_retarder(math.pi, th)),
+                ('quarter_wave_plate', 'theta=omitted', pol.quarter_wave_plate(), ref_retarder(math.pi / 2, 0.0)),
+                ('quarter_wave_plate', 'call=keywords', pol.quarter_wave_plate(theta=th), ref_retarder(math.pi / 2, th)),
+                ('linear_polarizer', 'theta=omitted', pol.linear_polarizer(), ref_diattenuator(0.0, 0.0)),
+                ('linear_polarizer', 'call=keywords', pol.linear_polarizer(theta=th), ref_diattenuator(0.0, th)),
+                ('jones_rotation_matrix', 'call=keywords', pol.jones_rotation_matrix(theta=th, shape=None), ref_rot(th)),
+                ('vector_vortex_retarder', 'retardance,rotate=omitted', pol.vector_vortex_retarder(charge, theta_grid.copy()),
+                 ref_vortex(charge, theta_grid, math.pi, 0.0)),
+                ('vector_vortex_retarder', 'call=keywords', pol.vector_vortex_retarder(charge=charge, theta=theta_grid.copy(), retardance=d, rotate=rot),
+                 ref_vortex(charge, theta_grid, d, rot)),
+            ]
+            for nm, lab, got, want in pairs:
+                law(ctx, 'form.call-syntax', got, want, f'C20/{nm}/form:{lab}', f'{nm} with {lab} differs from the closed form of the documented '
+                    'defaults / of the same values', dict(desc, form=lab))
+            # ---- vortex theta grid forms
+            tg = np.round(theta_grid) if integral else theta_grid
+            grid_forms = [('float32', tg.astype(np.float32), TOL32), ('F-order', np.asfortranarray(tg), None), ('read-only', None, None),
+                          ('strided-view', None, None)]
+            if integral:
+                grid_forms.append(('int64', tg.astype(np.int64), None))
+            ro = tg.copy()
+            ro.setflags(write=False)
+            big = np.zeros(tg.shape[:-1] + (tg.shape[-1] * 2,))
+            big[..., ::2] = tg
+            for lab, arr, tl in grid_forms:
+                arr = ro if lab == 'read-only' else big[..., ::2] if lab == 'strided-view' else arr
+                with ctx.guard(f'C20/vector_vortex_retarder/form:theta={lab}', dict(desc, form=lab)):
+                    for ch in (charge, charge + 0.5):         # an integer grid times a half-integer charge is not an integer grid
+                        law(ctx, 'form.scalar-arguments', pol.vector_vortex_retarder(ch, arr, d, rot),
+                            ref_vortex(ch, np.asarray(arr, dtype=float), d, rot), f'C20/vector_vortex_retarder/form:theta={lab}',
+                            f'vortex retarder on a theta grid given as {lab} differs from Mawet et al. eq. 7 on the same values',
+                            dict(desc, form=lab, charge=ch), tol=tl)
+            law(ctx, 'form.scalar-arguments', pol.vector_vortex_retarder(charge, np.float64(th), d, rot), ref_vortex(charge, np.array(th), d, rot),
+                'C20/vector_vortex_retarder/form:theta=numpy-float64-scalar', 'vortex retarder for one angle given as a numpy scalar differs '
+                'from eq. 7', desc)
+            # ---- shape= forms
+            if lead != ():
+                for f in SHAPE_FORMS:
+                    sf = _shape_form(lead, f)
+                    if sf is None:
+                        continue
+                    d2 = dict(desc, form=f)
+                    with ctx.guard(f'C20/forms/shape={f}', d2):
+                        for nm, got, one in (('linear_retarder', pol.linear_retarder(d, th, shape=sf), ref_retarder(d, th)),
+                                             ('half_wave_plate', pol.half_wave_plate(th, sf), ref_retarder(math.pi, th)),
+                                             ('quarter_wave_plate', pol.quarter_wave_plate(th, shape=sf), ref_retarder(math.pi / 2, th)),
+                                             ('linear_polarizer', pol.linear_polarizer(th, shape=sf), ref_diattenuator(0.0, th)),
+                                             ('linear_diattenuator', pol.linear_diattenuator(alpha, th, sf), ref_diattenuator(alpha, th)),
+                                             ('jones_rotation_matrix', pol.jones_rotation_matrix(th, sf), ref_rot(th)),
+                                             ('pauli_spin_matrix', pol.pauli_spin_matrix(it % 4, shape=sf), SIG[it % 4])):
+                            law(ctx, 'form.shape', got, np.broadcast_to(one, lead + (2, 2)), f'C20/{nm}/form:shape={f}',
+                                f'{nm}(shape given as {f}) is not the closed-form element repeated over that shape', d2)
+            for f, sf in (('empty-tuple', ()), ('empty-list', [])):
+                law(ctx, 'form.shape', pol.linear_retarder(d, th, shape=sf), ref_retarder(d, th), f'C20/linear_retarder/form:shape={f}',
+                    f'linear_retarder(shape={f}) is not the 2x2 element', dict(desc, form=f))
+            for f, ix in (('numpy-int64', np.int64(it % 4)), ('numpy-uint8', np.uint8(it % 4)), ('numpy-intp', np.intp(it % 4))):     # the documented type is int
+                law(ctx, 'form.scalar-arguments', pol.pauli_spin_matrix(ix), SIG[it % 4], f'C20/pauli_spin_matrix/form:index={f}',
+                    f'pauli_spin_matrix with the index given as {f} is not that Pauli matrix', dict(desc, form=f))
+        # ---- Jones arrays of every dtype kind through the Mueller / Pauli / Kronecker routines
+        with ctx.guard('C20/forms/jones-dtypes', desc):
+            A0 = np.round(rand_c(g, lead + (2, 2)) * 2)
+            B0 = rand_c(g, lead + (2, 2))
+            for dt in JONES_DTYPES:
+                d2 = dict(desc, form=dt)
+                if dt.startswith('complex'):
+                    A = (A0 + 0.37 * rand_c(g, lead + (2, 2))).astype(dt)
+                elif dt.startswith('float'):
+                    A = (A0.real + 0.37 * g.standard_normal(lead + (2, 2))).astype(dt)
+                elif dt == 'bool':
+                    A = A0.real > 0
+                elif dt == 'uint8':
+                    A = np.abs(A0.real).astype(dt)
+                else:
+                    A = A0.real.astype(dt)
+                Ac = A.astype(complex)
+                tl = TOL32 if dt in ('complex64', 'float32') else None
+                refM = np.empty(lead + (4, 4))
+                kr = np.empty(lead + (4, 4), dtype=complex)
+                for ix in np.ndindex(*lead):
+                    refM[ix] = ref_mueller(Ac[ix])
+                    kr[ix] = np.kron(Ac[ix], B0[ix])
+                with ctx.guard(f'C20/jones_to_mueller/form:jones={dt}', d2):
+                    M = pol.jones_to_mueller(A)
+                    ctx.observe('form.jones-dtypes')
+                    sc = max(1.0, maxabs(refM))
+                    e = min(maxabs(M - refM), maxabs(M - D3 @ refM @ D3)) if np.shape(M) == refM.shape else float('inf')
+                    if not e <= (tl or TOL) * sc:
+                        ctx.violation(f'C20/jones_to_mueller/form:jones={dt}', f'Mueller matrix of a {dt} Jones array differs from (1/2) tr(s_i J s_j J^H) '
+                                      'of the same values', d2, err=e)
+                    law(ctx, 'form.jones-dtypes', M, pol.jones_to_mueller(Ac), f'C20/jones_to_mueller/form:jones={dt}',
+                        f'Mueller matrix of a {dt} Jones array differs from that of the same values as complex128', d2, tol=tl)
+                    for f, bc in (('1', 1), ('numpy-bool', np.bool_(True)), ('keyword', None)):
+                        got = pol.jones_to_mueller(jones=A, broadcast=True) if bc is None else pol.jones_to_mueller(A, bc)
+                        law(ctx, 'form.call-syntax', got, M, f'C20/jones_to_mueller/form:broadcast={f}', 'jones_to_mueller with broadcast given '
+                            f'as {f} differs from broadcast=True', d2, tol=tl)
+                    pol.jones_to_mueller(Ac.reshape(-1, 2, 2)[0], broadcast=False)
+                    law(ctx, 'form.call-syntax', pol.jones_to_mueller(A), M, 'C20/jones_to_mueller/form:broadcast=omitted',
+                        'jones_to_mueller without broadcast= differs from broadcast=True after a broadcast=False call', d2, tol=tl)
+                    if lead == ():
+                        for f, bc in (('0', 0), ('numpy-bool', np.bool_(False))):
+                            law(ctx, 'form.call-syntax', pol.jones_to_mueller(A, bc), pol.jones_to_mueller(A, False),
+                                f'C20/jones_to_mueller/form:broadcast={f}', f'jones_to_mueller with broadcast given as {f} differs from broadcast=False',
+                                d2, tol=tl)
+                        law(ctx, 'form.jones-dtypes', pol.jones_to_mueller(A, False), M, f'C20/jones_to_mueller/form:jones={dt}/broadcast=False',
+                            f'broadcast=False Mueller matrix of a {dt} Jones matrix differs from the broadcast=True one', d2, tol=tl)
+                with ctx.guard(f'C20/broadcast_kron/form:a={dt}', d2):
+                    law(ctx, 'form.jones-dtypes', pol.broadcast_kron(A, B0), kr, f'C20/broadcast_kron/form:a={dt}',
+                        f'broadcast_kron of a {dt} array differs from numpy.kron per element', d2, tol=tl)
+                    law(ctx, 'form.jones-dtypes', pol.broadcast_kron(a=B0, b=A), np.stack([np.kron(B0[ix], Ac[ix]) for ix in np.ndindex(*lead)]).reshape(lead + (4, 4))
+                        if lead != () else np.kron(B0, Ac), f'C20/broadcast_kron/form:b={dt}',
+                        f'broadcast_kron with a {dt} second factor (keyword form) differs from numpy.kron per element', d2, tol=tl)
+                if dt not in ('bool', 'uint8'):      # unsigned subtraction wraps (numpy semantics), bool subtraction raises: out of domain
+                    with ctx.guard(f'C20/pauli_coefficients/form:jones={dt}', d2):
+                        c = pol.pauli_coefficients(A)
+                        rec = sum(np.asarray(ci)[..., None, None] * SIG[i] for i, ci in enumerate(c))
+                        law(ctx, 'form.jones-dtypes', rec, Ac, f'C20/pauli/form:jones={dt}', f'Pauli coefficients of a {dt} Jones array do not '
+                            'reconstruct it', d2, tol=tl)
+        # ---- a matrix a constructor handed out is edited by the caller; every constructor is then judged at the same angles
+        with ctx.guard('C20/forms/returned-matrix-edited', desc):
+            for a_ in (th, -th, 0.0, 0, rot, -rot):
+                pol.jones_rotation_matrix(a_)[...] = 3.0 - 1j
+            pol.half_wave_plate()[...] = 0.0
+            pol.quarter_wave_plate(th)[...] = 0.0
+            pol.linear_polarizer()[...] = 9.0
+            pol.linear_retarder(d, th)[...] = 1j
+            pol.pauli_spin_matrix(it % 4)[...] = 5.0
+            pol.linear_diattenuator(alpha)[...] = 2.0
+            pol.vector_vortex_retarder(charge, theta_grid.copy(), d, rot)[...] = 0.0
+            pol.jones_to_mueller(B0)[...] = 4.0
+            after = [('jones_rotation_matrix', pol.jones_rotation_matrix(th), ref_rot(th)),
+                     ('jones_rotation_matrix', pol.jones_rotation_matrix(-th), ref_rot(-th)),
+                     ('linear_retarder', pol.linear_retarder(d, th), ref_retarder(d, th)),
+                     ('linear_retarder', pol.linear_retarder(d), ref_retarder(d, 0.0)),
+                     ('half_wave_plate', pol.half_wave_plate(), ref_retarder(math.pi, 0.0)),
+                     ('half_wave_plate', pol.half_wave_plate(th), ref_retarder(math.pi, th)),
+                     ('quarter_wave_plate', pol.quarter_wave_plate(th), ref_retarder(math.pi / 2, th)),
+                     ('linear_polarizer', pol.linear_polarizer(), ref_diattenuator(0.0, 0.0)),
+                     ('linear_polarizer', pol.linear_polarizer(-th), ref_diattenuator(0.0, -th)),
+                     ('linear_diattenuator', pol.linear_diattenuator(alpha), ref_diattenuator(alpha, 0.0)),
+                     ('linear_diattenuator', pol.linear_diattenuator(alpha, th), ref_diattenuator(alpha, th)),
+                     ('pauli_spin_matrix', pol.pauli_spin_matrix(it % 4), SIG[it % 4]),
+                     ('vector_vortex_retarder', pol.vector_vortex_retarder(charge, theta_grid.copy(), d, rot), ref_vortex(charge, theta_grid, d, rot))]
+            for nm, got, want in after:
+                law(ctx, 'form.returned-matrix-edited', got, want, f'C20/{nm}/after-caller-edits-returned-matrices',
+                    f'{nm} differs from its closed form after the caller edited, in place, matrices that earlier constructor calls had returned',
+                    desc)
+            refM = np.empty(lead + (4, 4))
+            for ix in np.ndindex(*lead):
+                refM[ix] = ref_mueller(B0[ix])
+            M = pol.jones_to_mueller(B0)
+            ctx.observe('form.returned-matrix-edited')
+            e = min(maxabs(M - refM), maxabs(M - D3 @ refM @ D3))
+            if not e <= TOL * max(1.0, maxabs(refM)):
+                ctx.violation('C20/jones_to_mueller/after-caller-edits-returned-matrices', 'Mueller matrix differs from the Pauli-trace reference '
+                              'after the caller edited a Mueller matrix an earlier call had returned', desc, err=e)
+
+
+# ---- argument forms of the polarised propagation (hardening pass 2, classes A / E of the adapter workload) -------------------
+# The adapter hands the SAME positional and keyword argument objects to the scalar routine four times.  Every argument is therefore
+# also passed in the other forms the scalar routines accept today (established on /repo @ faa8443, see vp/propforms.py): shift / Q /
+# sample counts as list, float64 / float32 / integer ndarray, numpy scalars and 0-d arrays, by keyword and positionally, a
+# non-zero shift with output_dx != 1, a transfer function by keyword (tf=), real-dtype / integer Jones fields.  The reference
+# propagates each Jones component on its own with FRESH, equal-valued arguments of the same form.
+ADAPTER_FORMS = ('tuple', 'list', 'float64 ndarray', 'float32 ndarray', 'numpy scalars', 'integer ndarray')
+RULE = RULE + ('.  Adapter argument forms (hardening pass 2): jones_adapter(f)(J, ...) for all five routines with shift / Q / sample counts '
+               'as tuple, list, float64 / float32 / integer ndarray, numpy scalars and 0-d arrays, by keyword and positionally, a non-zero shift '
+               'with output_dx != 1, a transfer function passed with tf=, complex / real-dtype / integer Jones fields, each call made twice '
+               'with the same argument objects; the same forms through the functions patched by add_jones_propagation and through the '
+               'Wavefront methods on Jones-valued data after every step of the step histories')
+ASSUMPTIONS = ASSUMPTIONS + ['adapter argument forms: the reference is each Jones component propagated on its own with fresh, equal-valued arguments of '
+                             'the same form (so float32 containers need no wider tolerance); a form the scalar routine itself rejects is out of domain '
+                             '(skipped and counted); accepted forms as established on /repo @ faa8443 (vp/propforms.py)']
+
+
+def _adapter_form_case(g, fname, form, shp):
+    """make() -> fresh (args, kwargs) of one polarised call in the given argument form; (what-is-in-that-form, extra descriptor)."""
+    M = int(g.integers(2, 10))
+    N = M if g.random() < 0.5 else int(g.integers(2, 10))
+    positional = bool(g.integers(2))
+    if fname in ('focus', 'unfocus', 'angular_spectrum'):
+        Qv = [2, 1, 1.5, 3][int(g.integers(4))]
+        if form == 'integer ndarray' and float(Qv) != int(Qv):
+            Qv = 2
+
+        def mkQ():
+            return {'tuple': float(Qv), 'list': (int(Qv) if float(Qv) == int(Qv) else float(Qv)), 'float64 ndarray': np.array(float(Qv)),
+                    'float32 ndarray': np.float32(Qv), 'numpy scalars': np.float64(Qv), 'integer ndarray': np.int64(int(Qv))}[form]
+        if fname != 'angular_spectrum':
+            def make():
+                return ((mkQ(),), {}) if positional else ((), {'Q': mkQ()})
+            return make, 'Q', {'Q': Qv, 'positional': positional}
+        z = float(g.uniform(1, 50))
+        dx = [0.1, 0.05, 1.0][int(g.integers(3))]
+        with_tf = form in ('float64 ndarray', 'list') and bool(g.integers(2))
+        if with_tf:
+            from prysm import propagation
+            with quiet():
+                tf0 = np.array(propagation.angular_spectrum_transfer_function(shp, 0.6, dx, z), copy=True)
+
+            def make():
+                return (0.6, dx, float('nan')), {'tf': tf0.copy(), 'Q': mkQ()}
+            return make, 'tf', {'z': z, 'dx': dx, 'tf': 'by keyword'}
+
+        def make():
+            return ((0.6, dx, z, mkQ()), {}) if positional else ((0.6, dx, z), {'Q': mkQ()})
+        return make, 'Q', {'Q': Qv, 'z': z, 'dx': dx, 'positional': positional}
+    # fixed sampling: output_dx != 1, non-zero shift
+    if fname == 'focus_fixed_sampling':
+        idx, efl, wvl = [0.1, 0.05, 0.25][int(g.integers(3))], [100.0, 50.0][int(g.integers(2))], [0.5, 0.6328][int(g.integers(2))]
+        odx = wvl * efl / (shp[0] * idx) / [1, 2, 1.5, 3.3][int(g.integers(4))]
+    else:
+        idx, efl, wvl = [3.0, 1.7, 6.5][int(g.integers(3))], [100.0, 50.0][int(g.integers(2))], [0.5, 0.6328][int(g.integers(2))]
+        odx = wvl * efl / (shp[0] * idx) / [1, 2, 1.5, 3.3][int(g.integers(4))]
+    if abs(odx - 1.0) < 1e-3:
+        odx *= 1.37
+    s = (float(np.round(g.uniform(-3, 3), 2)) or 0.5, float(np.round(g.uniform(-3, 3), 2)))
+    phys = (s[0] * odx, s[1] * odx)
+    if form == 'integer ndarray':
+        phys = (float(int(g.integers(1, 4))) * (1 if g.random() < 0.5 else -1), float(int(g.integers(0, 3))))
+    if form == 'float32 ndarray':
+        phys = tuple(float(np.float32(v)) for v in phys)
+    method = ('mdft', 'czt')[int(g.integers(2))]
+
+    def mkshift():
+        return {'tuple': phys, 'list': list(phys), 'float64 ndarray': np.array(phys, dtype=np.float64), 'float32 ndarray': np.array(phys, dtype=np.float32),
+                'numpy scalars': (np.float64(phys[0]), np.float64(phys[1])), 'integer ndarray': np.array(phys, dtype=np.int64)}[form]
+
+    def mksamples():
+        return {'tuple': (M, N), 'list': [M, N], 'float64 ndarray': np.array([M, N]), 'float32 ndarray': (M, N),
+                'numpy scalars': (np.int64(M), np.int32(N)), 'integer ndarray': (M if M == N else np.array([M, N], dtype=np.int32))}[form]
+
+    def make():
+        if positional:
+            return (idx, efl, wvl, odx, mksamples(), mkshift(), method), {}
+        return (idx, efl, wvl, odx, mksamples()), {'shift': mkshift(), 'method': method}
+    return make, 'shift+output_samples', {'input_dx': idx, 'prop_dist': efl, 'wavelength': wvl, 'output_dx': odx, 'samples': [M, N], 'shift': list(phys),
+                                          'method': method, 'positional': positional}
+
+
+def _componentwise(f, Jf, make):
+    """Reference: every Jones component propagated on its own with fresh, equal-valued arguments (monitors bypassed)."""
+    comps = [[None, None], [None, None]]
+    with quiet():
+        for i in range(2):
+            for j in range(2):
+                args, kw = make()
+                comps[i][j] = np.array(f(np.array(Jf[..., i, j], copy=True), *args, **kw), copy=True)
+    ref = np.empty(comps[0][0].shape + (2, 2), dtype=np.result_type(*[c.dtype for row in comps for c in row]))
+    for i in range(2):
+        for j in range(2):
+            ref[..., i, j] = comps[i][j]
+    return ref
+
+
+def _run_adapter_forms(ctx):
+    """Classes A / E for polarised propagation: jones_adapter(f)(J, *args, **kwargs) with the arguments in every accepted form
+    (the adapter re-uses the same objects for its four internal calls), for all five routines, twice with the same objects."""
+    from prysm.x import polarization as pol
+    from prysm import propagation
+    rng = ctx.rng('c20-adapter-forms')
+    sizes = [(3, 3), (4, 4), (5, 4), (4, 7), (8, 8), (2, 5)]
+    if not ctx.quick:
+        sizes += [(7, 7), (6, 11), (12, 12), (13, 16), (17, 9)]
+    k = -1
+    for rep in range(ctx.pick(3, 160)):
+        for fname in PROP_FUNCS:
+            for form in ADAPTER_FORMS:
+                k += 1
+                if not ctx.mine(k):
+                    continue
+                sub = ctx.subseed(rng)
+                g = np.random.default_rng(sub)
+                shp = sizes[int(g.integers(len(sizes)))]
+                jk = ('complex', 'complex', 'real', 'int')[int(g.integers(4))]
+                Jf = rand_c(g, shp + (2, 2))
+                if jk == 'real':
+                    Jf = np.ascontiguousarray(Jf.real)
+                elif jk == 'int':
+                    Jf = g.integers(-3, 4, shp + (2, 2))
+                make, what, extra = _adapter_form_case(g, fname, form, shp)
+                desc = dict({'wl': 'adapter-forms', 'fn': fname, 'shape': list(shp), 'form': form, 'in_that_form': what, 'jones_dtype': str(Jf.dtype),
+                             'subseed': sub, 'class': f'adapter-forms:{fname}:{what}={form}:{jk}'}, **extra)
+                ctx.case(desc)
+                f = getattr(propagation, fname)
+                try:
+                    ref = _componentwise(f, Jf, make)
+                except Exception as e:  # the scalar routine rejects this form: out of the adapter's domain as well
+                    ctx.skip(f'adapter-forms: scalar {fname} itself raises {type(e).__name__} for this argument form (not a C20 matter)')
+                    continue
+                key = f'C20/jones_adapter/{fname}/component-mismatch/form:{what}={form}'
+                with ctx.guard(f'C20/jones_adapter/{fname}/form:{what}={form}', desc):
+                    args, kw = make()
+                    ad = pol.jones_adapter(f)
+                    snap = Jf.copy()
+                    for rnd in ('first call', 'second call with the same argument objects'):
+                        out = np.array(ad(Jf, *args, **kw), copy=True)
+                        law(ctx, 'adapter.argument-forms', out, ref, key,
+                            f'jones_adapter({fname})(J, ...)[..., i, j] != {fname}(J[..., i, j], ...) with {what} given as {form} ({rnd}; the adapter hands '
+                            'the same argument objects to all four component propagations)', dict(desc, round=rnd))
+                    ctx.require('adapter.input-unchanged', np.array_equal(Jf, snap), f'C20/jones_adapter/{fname}/mutates-input',
+                                'jones_adapter modified the Jones field passed in', desc)
+
+
 # step histories of add_jones_propagation: one per shard (the module keeps whatever state the library keeps between calls; the
 # harness never undoes a step in the middle of a history and restores prysm.propagation only at the very end of the run)
 STEP_HISTORIES = [
@@ -938,6 +1384,40 @@ def _run_monkeypatch(ctx, saved):
                         f'C20/add_jones_propagation/{fname}/{label}/scalar-passthrough', 'patched function on a scalar field != original', desc)
                     if si:
                         ctx.observe('add_jones_propagation.later-step')
+        # argument forms through the patched module functions and through the Wavefront methods (which call them): the adapter
+        # re-uses the same argument objects for its four component propagations
+        for fi, fname in enumerate(enabled):
+            for form in ('float64 ndarray', ADAPTER_FORMS[(si + fi + ctx.shard) % len(ADAPTER_FORMS)]):
+                shp = [(4, 4), (5, 6), (6, 3)][(si + fi) % 3]
+                Jf = rand_c(g, shp + (2, 2))
+                make, what, extra = _adapter_form_case(g, fname, form, shp)
+                desc = dict(sdesc, fn=fname, shape=list(shp), form=form, in_that_form=what, **extra)
+                ctx.case(desc)
+                try:
+                    direct = _componentwise(saved[fname], Jf, make)
+                except Exception as e:
+                    ctx.skip(f'adapter-forms: scalar {fname} itself raises {type(e).__name__} for this argument form (not a C20 matter)')
+                    continue
+                key = f'C20/add_jones_propagation/{fname}/{label}/ne-componentwise/form:{what}={form}'
+                with ctx.guard(f'C20/add_jones_propagation/{fname}/{label}/form:{what}={form}', desc):
+                    args, kw = make()
+                    law(ctx, 'add_jones_propagation.argument-forms', getattr(propagation, fname)(Jf, *args, **kw), direct, key,
+                        f'patched {fname} on a Jones field with {what} given as {form} is not the component-by-component propagation', desc)
+                    # Wavefront method form on Jones-valued data
+                    args, kw = make()
+                    if fname in ('focus', 'unfocus'):
+                        w = propagation.Wavefront(Jf, 0.55, 0.1, space='pupil' if fname == 'focus' else 'psf')
+                        got = getattr(w, fname)(100.0, *args, **kw).data
+                    elif fname == 'angular_spectrum':
+                        w = propagation.Wavefront(Jf, args[0], args[1])
+                        got = w.free_space(args[2], *args[3:], **kw).data
+                    else:
+                        w = propagation.Wavefront(Jf, args[2], args[0], space='pupil' if fname.startswith('focus') else 'psf')
+                        smp = args[4]
+                        got = getattr(w, fname)(args[1], args[3], smp, *args[5:], **kw).data
+                    law(ctx, 'add_jones_propagation.argument-forms', got, direct, key + '/Wavefront-method',
+                        f'Wavefront.{fname if fname != "angular_spectrum" else "free_space"} on Jones-valued data with {what} given as {form} is not the '
+                        'component-by-component propagation', desc)
 
 
 def install_monitors(ctx):
